@@ -69,14 +69,32 @@ def q_of(table, name, mode):
     return t["Qbb"]
 
 
+_thr_cache = {}
+
+
+def daughter_thresholds(name):
+    """Branching thresholds (in (0,1)) of the de-excitation scheme of the double-beta daughter of `name` (steering hints only)."""
+    if name not in _thr_cache:
+        import glob
+        import re
+        a = re.sub(r"^[A-Za-z]+", "", name)
+        parts = [os.path.basename(f)[:-3] for f in glob.glob(os.path.join(build.REPO, "bxdecay0", "*%slow.cc" % a))
+                 if re.match(r"^[A-Z][a-z]?%slow\.cc$" % a, os.path.basename(f))]
+        parts += schemes.EXTRA_PARTS.get(name, [])
+        _thr_cache[name] = schemes.harvest_thresholds(parts) if parts else []
+    return _thr_cache[name]
+
+
 def dbd_line(table, name, level, mode, window=None, tol=0.003, work_bound=0):
     e1, e2, w = (window[0], window[1], 1) if window else (0.0, 4.3, 0)
     Q = q_of(table, name, mode)
-    return "D %s %d %d %.17g %.17g %d %.17g %d %d %.17g %d" % (
-        name, level, mode, e1, e2, w, Q, 1 if mode in ZERO_NU else 0, 1 if name in CHAIN else 0, tol, work_bound)
+    thr = daughter_thresholds(name) if level > 0 or name in schemes.EXTRA_PARTS else []
+    return "D %s %d %d %.17g %.17g %d %.17g %d %d %.17g %d%s" % (
+        name, level, mode, e1, e2, w, Q, 1 if mode in ZERO_NU else 0, 1 if name in CHAIN else 0, tol, work_bound,
+        (" T " + " ".join("%.17g" % t for t in thr)) if thr else "")
 
 
-def run_specs(variant, lines, seed, n_iid, n_grid, hostile, timeout=7200, nshards=None, extra_env=None):
+def run_specs(variant, lines, seed, n_iid, n_grid, hostile, timeout=7200, nshards=None, extra_env=None, deep_events=0):
     """Returns (records, failures) where failures is a list of (shard, rc, stderr tail)."""
     exe = build.harness(variant, "gen_monitor", ["gen_monitor.cc"])
     spec = tempfile.NamedTemporaryFile("w", suffix=".spec", delete=False, dir=build.variant_dir(variant))
@@ -85,7 +103,7 @@ def run_specs(variant, lines, seed, n_iid, n_grid, hostile, timeout=7200, nshard
     nshards = nshards or min(len(lines), NCPU * 4)
 
     def one(shard):
-        cmd = [exe, spec.name, str(seed), str(n_iid), str(n_grid), "1" if hostile else "0", str(shard), str(nshards)]
+        cmd = [exe, spec.name, str(seed), str(n_iid), str(n_grid), "1" if hostile else "0", str(shard), str(nshards), str(deep_events)]
         return (shard,) + run(cmd, timeout=timeout, env=build.lib_env(variant, extra_env))
 
     res = pmap(one, list(range(nshards)), jobs=NCPU)
